@@ -600,6 +600,26 @@ func c17Handler(run *mon.Run, rng *mon.Rand, thorough bool) {
 		if r := l1.Deliver(ophosttypes.NewMsgInitiateTokenDeposit(user.String(), 1, "l2addr", sdk.NewCoin("uinit", math.NewIntFromUint64(total)), nil)); r.Class != sim.OK {
 			panic("deposit failed: " + r.ErrString())
 		}
+		// the identifier a deposit announces is the documented derived denom, whatever the amount (an empty deposit
+		// announces and registers it like any other) and whatever the L1 denom looks like
+		for k, dn := range []string{"uinit", "uusdc", longDenomA, lookalikeDenom, fmt.Sprintf("ufresh%d", t)} {
+			amt := []int64{0, 0, 1, 0, 0}[(k+t)%5]
+			r := l1.Deliver(ophosttypes.NewMsgInitiateTokenDeposit(user.String(), 1, "l2addr", sdk.NewCoin(dn, math.NewInt(amt)), nil))
+			run.Evaluations++
+			if r.Class != sim.OK {
+				continue
+			}
+			want := ref.L2Denom(1, dn)
+			got := ""
+			for _, ev := range r.EventsOfType(ophosttypes.EventTypeInitiateTokenDeposit) {
+				got, _ = sim.Attr(ev, ophosttypes.AttributeKeyL2Denom)
+			}
+			tr := map[string]interface{}{"l1_denom": dn, "amount": amt}
+			run.Check("handler.deposit_announces_documented_l2_denom", got == want, "c17.handler.deposit_l2_denom", tr, "deposit of %d %s announced l2_denom %q, the documented derivation gives %q", amt, dn, got, want)
+			pr, err := l1.Q.TokenPairByL1Denom(l1.Ctx, &ophosttypes.QueryTokenPairByL1DenomRequest{BridgeId: 1, L1Denom: dn})
+			run.Check("handler.deposit_announces_documented_l2_denom", err == nil && pr.TokenPair.L2Denom == want && pr.TokenPair.L1Denom == dn, "c17.handler.deposit_pair", tr, "after a deposit of %d %s the registered pair is %v (err %v), expected l2 denom %q", amt, dn, pr, err, want)
+			run.Distinct(fmt.Sprintf("deposit-denom/%d/%d", k, amt))
+		}
 		out := env.ProposeTree(1, ws, ref.PadLast, rng)
 		l1.NextBlock(env.Period(1) + 1e9)
 		for i, w := range ws {
